@@ -4,6 +4,8 @@
 #pragma once
 
 #include "../../common.h"
+// stl
+#include <memory>
 // enkiTS
 #include "enkiTS/TaskScheduler.h"
 
@@ -20,6 +22,12 @@ namespace rkcommon {
       int RKCOMMON_INTERFACE numThreadsTaskSystemInternal();
 
       void RKCOMMON_INTERFACE scheduleTaskInternal(Task *task);
+
+      // Schedules a heap-allocated task and hands its ownership to the tasking
+      // system, which deletes it once the scheduler has finished with it. (A
+      // task must not delete itself inside ExecuteRange(): the scheduler still
+      // updates the task's running count after ExecuteRange() has returned.)
+      void RKCOMMON_INTERFACE scheduleDetachedTaskInternal(Task *task);
 
       void RKCOMMON_INTERFACE waitInternal(Task *task);
 
@@ -54,21 +62,27 @@ namespace rkcommon {
       {
         struct LocalTask : public Task
         {
-          TASK_T t;
+          std::unique_ptr<TASK_T> t;
 
-          LocalTask(TASK_T &&fcn) : Task(1), t(std::forward<TASK_T>(fcn)) {}
+          LocalTask(TASK_T &&fcn)
+              : Task(1), t(new TASK_T(std::forward<TASK_T>(fcn)))
+          {
+          }
 
           ~LocalTask() override = default;
 
           void ExecuteRange(enki::TaskSetPartition, uint32_t) override
           {
-            t();
-            delete this;
+            (*t)();
+            // release what the closure owns right away; the task object itself
+            // is still used by the scheduler and gets deleted by the tasking
+            // system later
+            t.reset();
           }
         };
 
         auto *task = new LocalTask(std::forward<TASK_T>(fcn));
-        scheduleTaskInternal(task);
+        scheduleDetachedTaskInternal(task);
       }
 
     }  // namespace detail
